@@ -514,7 +514,12 @@ void ep_mul_fix_lwnaf(ep_t r, const ep_t *t, const bn_t k) {
 
 		ep_curve_get_ord(n);
 		bn_mod(m, k, n);
-		ep_mul_fix_plain(r, t, m);
+		/* A multiple of the order has an empty recoding. */
+		if (bn_is_zero(m)) {
+			ep_set_infty(r);
+		} else {
+			ep_mul_fix_plain(r, t, m);
+		}
 	} RLC_CATCH_ANY {
 		RLC_THROW(ERR_CAUGHT);
 	} RLC_FINALLY {
